@@ -88,6 +88,7 @@ fn gen_cfg(rng: &mut Rng, small: bool) -> GenCfg {
         cfg.str_len = 2;
         cfg.max_attrs = 1;
         cfg.max_decls = 1;
+        cfg.long_strings = false;
     } else {
         cfg.max_nodes = *rng.pick(&[3, 8, 20]);
         cfg.max_depth = *rng.pick(&[2, 4, 6]);
@@ -351,12 +352,15 @@ impl Parsing {
     }
 
     /// parse `r` through `ep` and apply this monitor's oracle
-    fn check(&self, ctx: &mut Ctx, doc: &ANode, r: &Rendered, ep: Ep) -> bool {
+    /// `stress`: put the Xot through the "used Xot" devices first (not in the enumerating stream, which parses up to
+    /// 3000 spellings of one document: 65 536 registrations before each of them would outlast the watchdog)
+    fn check(&self, ctx: &mut Ctx, doc: &ANode, r: &Rendered, ep: Ep, stress: bool) -> bool {
         let prop = self.prop();
         let mut xot = Xot::new();
         // a Xot that has been in use: id tables past their first thresholds, now and then two attribute names of one
         // element with ids that coincide modulo 256 / 65 536
-        if crate::build::maybe_collide(&mut xot, doc) {
+        if !stress {
+        } else if crate::build::maybe_collide(&mut xot, doc) {
             ctx.count("parsed_into_xot_with_colliding_name_ids");
         } else if crate::build::age_xot(&mut xot, doc) > 0 {
             ctx.count("parsed_into_aged_xot");
@@ -749,7 +753,7 @@ impl Monitor for Parsing {
                 }
                 let (eps, _) = self.eps_for(&doc, rng);
                 for ep in eps {
-                    self.check(ctx, &doc, &r, ep);
+                    self.check(ctx, &doc, &r, ep, true);
                 }
                 ctx.nontrivial(crate::rng::hash_str(&r.text));
             }
@@ -775,7 +779,7 @@ impl Monitor for Parsing {
                         ctx.count(&format!("feature.{}", f));
                     }
                     let ep = if self.0 == PW::C17 { if wf { Ep::ParseSpan } else { Ep::FragmentSpan } } else if wf { Ep::Parse } else { Ep::Fragment };
-                    if !self.check(ctx, &doc, &r, ep) {
+                    if !self.check(ctx, &doc, &r, ep, false) {
                         break;
                     }
                     if n == 1 {
@@ -823,7 +827,7 @@ impl Monitor for Parsing {
                 }
                 let (eps, frag) = self.eps_for(&doc, rng);
                 for ep in eps {
-                    self.check(ctx, &doc, &r, ep);
+                    self.check(ctx, &doc, &r, ep, true);
                 }
                 if self.0 == PW::C02 && (frag || rng.chance(1, 4)) {
                     // any content is also a fragment
@@ -868,7 +872,7 @@ impl Monitor for Parsing {
                     let opts = RenderOpts { fragment: false, allow_decl: true, allow_bom: false, encoding_label: enc.label().map(|s| s.to_string()), ..Default::default() };
                     let r = render::render(&doc, &mut RandomChoices(rng), &opts);
                     ctx.nontrivial(crate::rng::hash_str(&r.text));
-                    self.check(ctx, &doc, &r, Ep::Bytes(enc));
+                    self.check(ctx, &doc, &r, Ep::Bytes(enc), true);
                 } else {
                     super::c03::error_span_case(rng, ctx);
                 }
